@@ -1,7 +1,7 @@
 """./check extras [--tier]: every growth specification that has no listed property (DESIGN.md section 12.7), one after the other."""
 import importlib
 
-NAMES = ["autophagy", "cell", "cellpipe", "episodic", "histone", "homeostasis", "morphogen", "nucleus", "oscillator", "quality"]
+NAMES = ["autophagy", "cell", "cellpipe", "epiplexity", "episodic", "histone", "homeostasis", "morphogen", "nucleus", "oscillator", "quality"]
 
 
 def run(tier):
